@@ -19,7 +19,8 @@ EXPLANATION = (
     'R3 the lower bound advanced by the anchored prefix and the upper bound reserved for the anchored suffix both reach every search for a '
     'middle piece on got, the suffix branch decreases the upper bound, every accepted piece advances the lower bound past it, and the '
     'comparison of the two bounds (returning False) dominates the scan -- necessary for "pieces never overlap". '
-    'Equivalence with the wildcard definition on all strings is not decided.')
+    'Equivalence with the wildcard definition on all strings is not decided.'
+    ' R3 also: the scan loop runs over the whole remaining piece list. R7 = C05.R11, R8 = C05.R12.')
 DECIDES = ['WHO-MAY + GUARD-DOM of the matcher', 'exactness without wildcard', 'FLOW of both scan bounds']
 NOT_DECIDED = ['equivalence of the greedy scan with the wildcard definition for all strings', 'treatment of whitespace around the marker']
 
